@@ -35,6 +35,9 @@ mut("rev-d12-noheader-stats", "C13", "internal/client/multiplexer.go", "internal
 mut("rev-d13-open-leak", "C14", "client.go", "\t\tteardown()\n\t\treturn nil, err\n", "\t\treturn nil, err\n", "failed open not torn down")
 mut("rev-d20-halfclose", "C11", "server.go", "\t\t} else if handler.halfClosed {", "\t\t} else if false && handler.halfClosed {", "envelopes after half-close queued again")
 mut("rev-respchan-closed-ctx", "C07", "internal/client/multiplexer.go", "\t\t\t\t\tif err := ctx.Err(); err != nil {\n\t\t\t\t\t\treturn nil, err\n\t\t\t\t\t}\n\t\t\t\t\tif err := rm.readErrorIfDone(); err != nil {", "\t\t\t\t\tif err := rm.readErrorIfDone(); err != nil {", "closed response channel no longer yields the context's error")
+mut("rev-drop-then-deliver", "C09", "internal/client/multiplexer.go", "\tselect {\n\tcase <-h.gone:\n\t\t// Once one Rpc", "\tselect {\n\tcase <-make(chan struct{}):\n\t\t// Once one Rpc", "read loop may deliver after having dropped again")
+mut("rev-empty-return-route", "C17", "proxy.go", "\t\tif len(rpc.Header.ProxyNext) > 0 {", "\t\tif rpc.Header.ProxyNext != nil {", "empty non-nil return route indexed again")
+mut("rev-send-fail-mutex", "C09", "internal/client/multiplexer.go", "func (rm *RpcMultiplexer) readErrorIfDone() error {\n\trm.rErrMutex.Lock()\n\tdefer rm.rErrMutex.Unlock()", "func (rm *RpcMultiplexer) readErrorIfDone() error {\n\trm.mutex.Lock()\n\tdefer rm.mutex.Unlock()", "read error queried under the registry mutex again")
 mut("rev-trailer-after-deadline", "C06", "server.go", "\t\tif r.GetTrailer() != nil {\n\t\t\t// The trailer carries", "\t\tif false && r.GetTrailer() != nil {\n\t\t\t// The trailer carries", "trailer hand-off races with the done stream context again")
 mut("rev-stats-end-eof", "C20", "internal/util.go", "\t\tif appErr != nil {\n\t\t\tend.Error = appErr", "\t\tif appErr != nil && appErr.Error() != \"EOF\" && !strings.HasSuffix(appErr.Error(), \": EOF\") {\n\t\t\tend.Error = appErr", "End.Error nil again for errors that are or wrap io.EOF")
 mut("rev-teardown-order", "C13", "internal/client/stream.go", "\t\tteardown()\n\n\t\tif sendRst {", "\t\tif sendRst {", "teardown no longer unregisters first (and never unregisters)", suite=False)
